@@ -149,6 +149,12 @@ def mutations(cfg: dict) -> Iterator[Tuple[str, dict, List[int]]]:
                     valp = vp if isinstance(spec, list) else vp + ("values",)
                     for j in range(len(vals)):
                         nv = list(vals)
+                        if isinstance(nv[j], dict):  # a mapping-valued element: change one leaf / add a key
+                            for lbl, mv in (("leaf", {**nv[j], sorted(nv[j])[0]: "changed"}), ("added-key", {**nv[j], "zzz": 0})):
+                                nv2 = list(vals)
+                                nv2[j] = mv
+                                yield (f"sweep-sequence-mapping-element-{lbl}[{j}/{len(vals)}]", yamlrw.set_(cfg, valp, nv2), [i])
+                            continue
                         nv[j] = nv[j] + 0.5
                         yield (f"sweep-sequence-element[{j}/{len(vals)}]", yamlrw.set_(cfg, valp, nv), [i])
                         for tv in yamlrw.ulp_mutants(vals[j]):
